@@ -13,11 +13,18 @@ import (
 	"strconv"
 	"strings"
 
+	"bufio"
+	"io"
+	"os/exec"
+	"path/filepath"
+
 	capnp "capnproto.org/go/capnp/v3"
+	"capnproto.org/go/capnp/v3/pogs"
 	. "verifh/hc"
 )
 
-var sigsPath = flag.String("sigs", "coq/Gen/GoArith.sigs", "signature table written by gotrans")
+var sigsPath = flag.String("sigs", "", "signature table written by gotrans (default: coq/Gen/GoArith.sigs, group 2: coq/Gen/GoArith2.sigs)")
+var group = flag.Int("group", 1, "1: the L0 arithmetic of Core/Arith.v (capnp.VerifArith); 2: the second group (VerifArith2, pogs.VerifArith, capnpc-go)")
 
 func main() { Main(runL0) }
 
@@ -36,8 +43,8 @@ type fsig struct {
 
 func parseType(s string, structs map[string][]styp) []styp {
 	switch {
-	case s == "bool":
-		return []styp{{kind: "bool", bits: 1}}
+	case s == "bool" || s == "err":
+		return []styp{{kind: "bool", bits: 1}} // err: 1 = non-nil error
 	case s == "len64":
 		return []styp{{kind: "len", bits: 63}}
 	case strings.HasPrefix(s, "struct:"):
@@ -85,7 +92,7 @@ func readSigs(path string) []fsig {
 		for i++; f[i] != ":"; i++ {
 			s.res = append(s.res, parseType(f[i], structs)...)
 		}
-		s.panics = f[i+1] == "panics"
+		s.panics = strings.HasPrefix(f[i+1], "panics")
 		res = append(res, s)
 	}
 	return res
@@ -178,6 +185,12 @@ func boundary(t styp) []uint64 {
 	if t.kind == "int" && t.bits == 64 && !t.signed {
 		src = append(append([]uint64(nil), rawBoundary...), wordPatterns...)
 	}
+	if t.kind == "int" && t.bits == 8 {
+		src = nil
+		for i := uint64(0); i < 256; i++ { // exhaustive
+			src = append(src, i)
+		}
+	}
 	for _, r := range src {
 		v := norm(t, r)
 		if !seen[v] {
@@ -208,13 +221,16 @@ func randVal(r *Rand, t styp, bl []uint64) uint64 {
 }
 
 func runCase(out *Out, s *fsig, kind string, vals []uint64) {
+	if fix := normalise[s.name]; fix != nil {
+		fix(vals)
+	}
 	var cb strings.Builder
 	cb.WriteString(s.name)
 	for i, v := range vals {
 		cb.WriteByte(' ')
 		cb.WriteString(show(s.args[i], v))
 	}
-	res, panicked := capnp.VerifArith(s.name, vals)
+	res, panicked := callImpl(s.name, vals)
 	var impl, class string
 	if panicked {
 		impl, class = "panic", "panic"
@@ -240,7 +256,119 @@ func runCase(out *Out, s *fsig, kind string, vals []uint64) {
 	out.Case(s.name+"/"+kind, cb.String(), impl, class, true)
 }
 
+// normalise restricts the generated arguments of some functions to the domain on which the
+// wrapper can call the real function (applied before the case is written, so implementation and
+// model see the same arguments).
+var normalise = map[string]func(v []uint64){
+	// the header that the wrapper builds has 64 segment slots
+	"go_segmentSize": func(v []uint64) { v[1] %= 64 },
+	// intValue(v) is only defined for int8..int64 and returns the sign-extended field
+	"go_intFieldDefaultMask": func(v []uint64) {
+		if v[0] == 0 {
+			return
+		}
+		v[1] = 2 + v[1]%4
+		switch v[1] {
+		case 2:
+			v[2] = uint64(int64(int8(v[2])))
+		case 3:
+			v[2] = uint64(int64(int16(v[2])))
+		case 4:
+			v[2] = uint64(int64(int32(v[2])))
+		}
+	},
+}
+
+// ---- implementations
+
+var capnpcIn io.WriteCloser
+var capnpcOut *bufio.Reader
+var outDir string
+
+// capnpcCall serves the functions of package main of capnpc-go through a child process built
+// with -tags verif from the repository the harness is built against.
+func capnpcCall(name string, vals []uint64) ([]uint64, bool) {
+	if capnpcIn == nil {
+		goCmd := os.Getenv("VERIF_GO")
+		if goCmd == "" {
+			goCmd = "go1.26.8"
+		}
+		exe, err := filepath.Abs(filepath.Join(outDir, "capnpc-go-verif"))
+		if err != nil {
+			panic(err)
+		}
+		b := exec.Command(goCmd, "build", "-tags", "verif", "-o", exe, "capnproto.org/go/capnp/v3/capnpc-go")
+		b.Dir = "harness"
+		if o, err := b.CombinedOutput(); err != nil {
+			panic(fmt.Sprintf("building capnpc-go with -tags verif failed: %v\n%s", err, o))
+		}
+		c := exec.Command(exe)
+		c.Env = append(os.Environ(), "CAPNPC_GO_VERIF_ARITH=1")
+		c.Stderr = os.Stderr
+		capnpcIn, err = c.StdinPipe()
+		if err != nil {
+			panic(err)
+		}
+		po, err := c.StdoutPipe()
+		if err != nil {
+			panic(err)
+		}
+		capnpcOut = bufio.NewReader(po)
+		if err := c.Start(); err != nil {
+			panic(err)
+		}
+	}
+	var b strings.Builder
+	b.WriteString(name)
+	for _, v := range vals {
+		fmt.Fprintf(&b, " %d", v)
+	}
+	b.WriteByte('\n')
+	if _, err := io.WriteString(capnpcIn, b.String()); err != nil {
+		panic(err)
+	}
+	line, err := capnpcOut.ReadString('\n')
+	if err != nil {
+		panic(fmt.Sprintf("capnpc-go verif server: %v (request %q)", err, b.String()))
+	}
+	f := strings.Fields(line)
+	if len(f) == 1 && f[0] == "panic" {
+		return nil, true
+	}
+	if len(f) == 0 || f[0] != "ok" {
+		panic("capnpc-go verif server: bad answer " + line)
+	}
+	res := make([]uint64, len(f)-1)
+	for i := range res {
+		res[i], err = strconv.ParseUint(f[i+1], 10, 64)
+		if err != nil {
+			panic(err)
+		}
+	}
+	return res, false
+}
+
+func callImpl(name string, vals []uint64) ([]uint64, bool) {
+	if *group == 1 {
+		return capnp.VerifArith(name, vals)
+	}
+	switch name {
+	case "go_isFieldInBounds":
+		return pogs.VerifArith(name, vals)
+	case "go_gen_Offset", "go_intbits", "go_intFieldDefaultMask":
+		return capnpcCall(name, vals)
+	}
+	return capnp.VerifArith2(name, vals)
+}
+
 func runL0(out *Out, r *Rand, tier string, replay []string) {
+	if *sigsPath == "" {
+		*sigsPath = "coq/Gen/GoArith.sigs"
+		if *group == 2 {
+			*sigsPath = "coq/Gen/GoArith2.sigs"
+		}
+	}
+	outDir = flag.Lookup("out").Value.String()
 	sigs := readSigs(*sigsPath)
 	byName := map[string]*fsig{}
 	for i := range sigs {
@@ -307,7 +435,7 @@ func runL0(out *Out, r *Rand, tier string, replay []string) {
 				runCase(out, s, "boundary", vals)
 			}
 		}
-		for n := 0; n < nrand; n++ {
+		for n := 0; n < nrand && len(vals) > 0; n++ {
 			for k := range vals {
 				vals[k] = randVal(r, s.args[k], lists[k])
 			}
